@@ -35,6 +35,13 @@ def tcp_signatures_match(
     if signature.options.layout != packet_signature.options.layout:
         return None
 
+    # A version-specific signature only applies to packets of that IP version.
+    if (
+        signature.ip_version != WILDCARD
+        and signature.ip_version != packet_signature.ip_version
+    ):
+        return None
+
     signature_quirks = signature.quirks
 
     # If the database signature has no IP version specified, remove
